@@ -183,6 +183,8 @@ def _worker(args):
     # every third unit presents integral curves as int64 arrays (the properties do not depend on the dtype)
     _cv.set_int_mode(ordinal % 3 == 1 and not getattr(mod, 'NO_INT_MODE', False))
     res.int_mode = _cv.INT_MODE
+    if _cv.INT_MODE:
+        res.count('units_with_integral_curves_as_int64')
     try:
         mod.run_unit(unit, res)
     except UnitAbort:
